@@ -5,8 +5,9 @@
     [lin_point ts ps] is the linear-interpolated curve through the points [ps] at the knots [ts] (the
     interpolator's own parameters), [il_length] the repaired InterpolatedCurveBase.get_length, [il_length_old]
     the formula of the snapshot, [dc_*] the discrete curve, [fc_*] any curve given by a function. *)
-From Coq Require Import Reals List Arith Lia Lra.
-From CB Require Import Base.Vec3 Model.C16_Curves Proofs.C16_Curves Proofs.C16_Length Proofs.C16_Edge.
+From Coq Require Import QArith Qreals Reals List Arith Lia Lra.
+From CB Require Import Base.Vec3 Model.C16_Curves Model.C16_CurvesQ Proofs.C16_Curves Proofs.C16_Length Proofs.C16_Edge
+  Proofs.C16_QSound Proofs.C16_Closest.
 Import ListNotations.
 Open Scope R_scope.
 
@@ -74,6 +75,15 @@ Proof.
   - exact dc_length_cum.
 Qed.
 
+(** ** parameterisation by normalised chord length (InterpolatorBase.params, equalize=True): the arc length is
+    proportional to the parameter, so the length between two parameters is the fraction |b - a| of the total *)
+Definition C16_length_chord_params_stmt : Prop :=
+  forall ps a b, 0 < polylen ps -> knots_ok (chord_params ps) ps ->
+    in_range (chord_params ps) a -> in_range (chord_params ps) b ->
+    il_length (lin_point (chord_params ps) ps) (chord_params ps) a b = Rabs (b - a) * polylen ps.
+Theorem C16_length_chord_params : C16_length_chord_params_stmt.
+Proof. intros ps a b HL (H1 & H2 & H3). exact (il_length_chord_params ps a b HL H1 H2 H3). Qed.
+
 (** ** the formula of the snapshot (break points i/segments) is not the polyline length when the knots are uneven:
     the full statement for [il_length_old] is refuted by a three-point curve *)
 Definition C16_length_old_stmt : Prop :=
@@ -106,6 +116,44 @@ Definition C16_closest_dense_partial_stmt : Prop :=
 Theorem C16_closest_dense_partial : C16_closest_dense_partial_stmt.
 Proof. exact fc_closest_coarse. Qed.
 
+(** for a line curve the exact optimum over the bounds is the clamped projection [line_topt]; the correspondence
+    certifies on every line-curve query that the implementation's result is within 1e-4 x extent of it
+    ([qnot_farther] against [qline_topt], which computes [line_topt]) *)
+Definition C16_closest_line_stmt : Prop :=
+  (forall p1 p2 lo hi q t, 0 < norm2 (vsub p2 p1) -> lo <= hi -> lo <= t <= hi ->
+     dist (line_point p1 p2 (line_topt p1 p2 lo hi q)) q <= dist (line_point p1 p2 t) q)
+  /\ (forall p1 p2 lo hi q, ~ (qn2 (qvsub p2 p1) == 0)%Q -> (lo <= hi)%Q ->
+     Q2R (qline_topt p1 p2 lo hi q) = line_topt (q2v p1) (q2v p2) (Q2R lo) (Q2R hi) (q2v q)).
+Theorem C16_closest_line : C16_closest_line_stmt.
+Proof. split; [exact line_closest_opt | exact qline_topt_sound]. Qed.
+
+(** for a linear-interpolated curve [pl_mind2] is a lower bound of the squared distance from the query to every
+    point of the curve (it is the exact distance to the polyline); a passed certificate of the correspondence
+    ([qnot_farther] against [qpl_mind2]) means that the implementation's result is at most [tol] farther from the
+    query than every point of the curve *)
+Definition C16_closest_linear_stmt : Prop :=
+  (forall ts ps q t m2, knots_ok ts ps -> distinct_consecutive ps -> in_range ts t ->
+     pl_mind2 ps q = Some m2 -> m2 <= norm2 (vsub (lin_point ts ps t) q))
+  /\ (forall ts pts q x tol m2 t,
+     qincr ts -> length pts = length ts -> (2 <= length ts)%nat -> qdistinct_consecutive pts ->
+     qpl_mind2 pts q = Some m2 -> qnot_farther tol x q m2 = true -> in_range (map Q2R ts) t ->
+     dist (q2v x) (q2v q) <= dist (lin_point (map Q2R ts) (map q2v pts) t) (q2v q) + Q2R tol).
+Theorem C16_closest_linear : C16_closest_linear_stmt.
+Proof.
+  split.
+  - intros ts ps q t m2 (H1 & H2 & H3) Hd Ht Hm. exact (pl_mind2_opt ts ps q t m2 H1 H2 H3 Hd Ht Hm).
+  - exact qpl_certificate.
+Qed.
+
+(** for a circle curve (unit normal [k]) the result [r] is at most [circle_defect] farther from the query than
+    every point of the whole circle; the correspondence bounds [circle_defect] by 1e-4 x extent on every near
+    query with the [interval] tactic *)
+Definition C16_closest_circle_stmt : Prop :=
+  forall o rim k q r t, norm2 k = 1 ->
+    dist (circle_point_k o rim k r) q <= dist (circle_point_k o rim k t) q + circle_defect o rim k q r.
+Theorem C16_closest_circle : C16_closest_circle_stmt.
+Proof. exact circle_defect_opt. Qed.
+
 (** ** an edge snapped to a curve: n points, the k-th is the curve point at a parameter between those of the two
     vertices, running from the first vertex to the second; on a discrete curve the points strictly between the
     two indices in that order.  (The edge's length is [get_length] between the two parameters by definition.) *)
@@ -131,6 +179,39 @@ Proof.
     intros k Hk. exact (dc_edge_points_nth pts a b k Ha Hb Hk).
 Qed.
 
+(** ** the rational evaluators of the correspondence compute the model: what a case file checks with vm_compute over
+    Q is a statement about the real-valued model on the images [Q2R] / [q2v] of its (exact binary64) inputs *)
+Definition C16_corr_sound_stmt : Prop :=
+  (* points of the linear-interpolated and of the line curve, parameters of linspace, knots between two parameters *)
+  (forall ts ps t, qincr ts -> q2v (qlin_point ts ps t) = lin_point (map Q2R ts) (map q2v ps) (Q2R t))
+  /\ (forall p1 p2 t, q2v (qline_point p1 p2 t) = line_point (q2v p1) (q2v p2) (Q2R t))
+  /\ (forall a b n, (2 <= n)%nat -> map Q2R (qlinspace a b n) = linspace (Q2R a) (Q2R b) n)
+  /\ (forall ts lo hi, map Q2R (qil_params ts lo hi) = il_params (map Q2R ts) (Q2R lo) (Q2R hi))
+  (* the discrete curve is evaluated on rational points by the model's own (polymorphic) list functions *)
+  /\ (forall pts a b, map q2v (dc_discretize pts a b) = dc_discretize (map q2v pts) a b)
+  /\ (forall pts a b, map q2v (dc_edge_points pts a b) = dc_edge_points (map q2v pts) a b)
+  /\ (forall pts q, dc_closest (map q2v pts) (q2v q) = qclosest_idx pts q)
+  (* comparisons: a passed check bounds the distance / the error of the length in the reals *)
+  /\ (forall tol l m, (0 <= tol)%Q -> qclose_list tol l m = true -> close_list (Q2R tol) (map q2v l) (map q2v m))
+  /\ (forall tol l L, qlen_ok tol l L = true -> Rabs (polylen (map q2v l) - Q2R L) <= Q2R tol)
+  /\ (forall tol l L, qlen_ok_cd tol l L = true -> Rabs (polylen (map q2v l) - Q2R L) <= Q2R tol)
+  /\ (forall tol x q m2, qnot_farther tol x q m2 = true -> dist (q2v x) (q2v q) <= sqrt (Q2R m2) + Q2R tol).
+Theorem C16_corr_sound : C16_corr_sound_stmt.
+Proof.
+  repeat split.
+  - exact qlin_point_sound.
+  - exact qline_point_sound.
+  - exact qlinspace_sound.
+  - exact qil_params_sound.
+  - intros. apply dc_discretize_map.
+  - intros. apply dc_edge_points_map.
+  - exact qclosest_idx_sound.
+  - intros tol l m H. exact (qclose_list_sound tol H l m).
+  - exact qlen_ok_sound.
+  - exact qlen_ok_cd_sound.
+  - exact qnot_farther_sound.
+Qed.
+
 (** the hypotheses are satisfiable *)
 Example C16_knots_ok_example : knots_ok old_ts old_ps /\ in_range old_ts 0 /\ in_range old_ts (1 / 2) /\ in_range old_ts 1.
 Proof.
@@ -138,11 +219,27 @@ Proof.
   repeat split; try lia; try lra.
 Qed.
 
+Example C16_chord_params_example :
+  0 < polylen old_ps /\ knots_ok (chord_params old_ps) old_ps /\ in_range (chord_params old_ps) (1 / 2).
+Proof.
+  destruct chord_params_example as (H1 & H2 & H3 & H4).
+  split; [exact H1|]. split; [|exact H4]. split; [exact H2|]. split; [exact H3|]. rewrite <- H3. simpl. lia.
+Qed.
+
+(** the assumption on the minimiser is satisfiable (a minimiser that stays at its start point) *)
+Example C16_minimiser_example : forall (f : R -> vec) q t0, dist (f ((fun t : R => t) t0)) q <= dist (f t0) q.
+Proof. intros. lra. Qed.
+
 Print Assumptions C16_discretize_ends.
 Print Assumptions C16_interpolates.
 Print Assumptions C16_length_additive.
 Print Assumptions C16_length_polyline.
+Print Assumptions C16_length_chord_params.
 Print Assumptions C16_length_old_refuted.
 Print Assumptions C16_closest_discrete.
 Print Assumptions C16_closest_dense_partial.
+Print Assumptions C16_closest_line.
+Print Assumptions C16_closest_linear.
+Print Assumptions C16_closest_circle.
 Print Assumptions C16_edge_on_curve.
+Print Assumptions C16_corr_sound.
